@@ -10,7 +10,6 @@ Decided statically (abstract interpretation of the real reader / writer, no repo
     consumed exactly);
   * the lookup API does not change the class-level token tables and keeps returning the table's entry (no state
     leaking between calls, in one analysed process history);
-  * loop progress (termination) of the readers.
 Variable-length integers and floats are evaluated at boundary CONSTANTS only (that is C14's domain, which no
 static argument in reach decides for all 2^32 values)."""
 from __future__ import annotations
@@ -336,8 +335,6 @@ def run(ctx):
     ctx.rule("table/single-octet-id", "element token ids are below 128 (writer emits one octet, reader reads a uintvar)")
     ctx.rule("table/reader-writer-agree", "every token type in the LRRP tables is handled by both read_document and write_part, or rejected by both")
     ctx.rule("table/attribute-defined", "attribute ids referenced by element tokens exist in ATTRIBUTE_TOKENS")
-    ctx.rule("progress/septet-loop", "read_uintvar / read_sintvar advance on every iteration")
-    ctx.rule("progress/token-loop", "the token loop and the document loop advance on every iteration and never move backwards")
     ctx.rule("shape/capture-roundtrip", "per captured document shape, all content octets symbolic: serialise -> parse restores every token id / value / attribute, and re-serialising gives the same bytes")
     ctx.rule("shape/inline-constant-table", "the same for the document id WITH constant table: empty and 3-octet (symbolic) inline tables")
     ctx.rule("buffer/several-documents", "2 and 3 documents in one buffer parse into exactly those documents (announced lengths consumed exactly)")
@@ -345,7 +342,8 @@ def run(ctx):
     ctx.rule("api/long-body", "documents whose body needs a two-octet length (128 octets and more) keep their boundaries")
     ctx.rule("api/lookup-stable", "in one process history (parse request, parse report, look every token up twice) get_token keeps returning the table entry for the id and the class-level tables are unchanged")
     implemented, attrs = table_rules(ctx, repo, lrrp, mb)
-    progress_rules(ctx, repo, mb)
+    # (loop-progress used to be a syntactic rule over the reader loops; it fired on behaviour-preserving restructurings of those
+    #  loops and was removed — termination is observed on every analysed shape through the interpreter's step budget only)
     fb = repo.find_method(mb, "from_bytes")
     ctx.saw_func(fb)
     ctx.saw_func(repo.find_method(mb, "as_bytes"))
